@@ -1,6 +1,60 @@
-/- Driver/C08 — stub until the property's model driver is written. -/
+/-
+Driver/C08 — line-protocol driver over the models of Model/Serial (install, download, size,
+ZBSDIFF container). `m <fmt> <hex>` runs parse → build → parse → build on the MODEL and prints the
+same outcome line as the harness prints for the real code; `o …` / `of …` lines (oracle-only
+formats, evaluated on the implementation alone) are answered `-`.
+-/
 import Driver.Common
-open Drv
+import Cascette.Model.Serial
+open Drv Cascette Cascette.Model.Manifest Cascette.Model.Serial
+
+def fnv64 (b : Bytes) : UInt64 :=
+  b.foldl (fun h x => (h ^^^ (UInt64.ofNat x.toNat)) * 0x00000100000001b3) 0xcbf29ce484222325
+
+/-- the pipeline outcome for a format given by `parse`/`build`/summary -/
+def outcome {V : Type} [DecidableEq V] (parse : Bytes → Option V) (build : V → Option Bytes)
+    (summary : V → String) (input : Bytes) : String :=
+  match parse input with
+  | none => "err"
+  | some v =>
+    match build v with
+    | none => s!"ok {summary v} fp=accepted-not-rebuildable"
+    | some y =>
+      let pre := s!"ok {summary v} n={y.length} h={hexFixed 16 (fnv64 y).toNat}"
+      match parse y with
+      | none => s!"{pre} fp=rebuilt-not-parseable"
+      | some v2 =>
+        if v2 ≠ v then s!"{pre} fp=rebuild-changes-content" else
+        match build v2 with
+        | none => s!"{pre} fp=second-build-fails"
+        | some y2 => if y2 = y then s!"{pre} fp=ok" else s!"{pre} fp=second-build-differs"
+
+def formats : List String :=
+  ["blte", "encoding", "aidx", "agroup", "root", "install", "download", "size", "tvfs", "parchive",
+   "pindex", "zbsdiff", "buildcfg", "cdncfg", "patchcfg", "productcfg", "keyring", "bpsv", "espec"]
+
+def handle (toks : List String) : String :=
+  match toks with
+  | ["m", fmt, h] =>
+    match parseHex h with
+    | none => "bad-op"
+    | some b =>
+      if fmt == "inst" then
+        outcome parseInstallU buildInstall
+          (fun m => s!"v={m.version} t={m.tags.length} e={m.entries.length}") b
+      else if fmt == "dl" then
+        outcome parseDFile buildDFile
+          (fun m => s!"v={m.version} e={m.entries.length} t={m.tags.length}") b
+      else if fmt == "size" then
+        outcome parseSFile buildSFile
+          (fun m => s!"v={m.version} e={m.entries.length} t={m.tags.length} total={m.total}") b
+      else if fmt == "zbs" then
+        outcome parseZFile buildZFile
+          (fun z => s!"c={z.csize} d={z.dsize} o={z.osize} x={z.extra.length}") b
+      else "bad-op"
+  | ["o", fmt, _] => if formats.contains fmt then "-" else "bad-op"
+  | ["of", fmt, _, _] => if formats.contains fmt then "-" else "bad-op"
+  | _ => "bad-op"
 
 def main : IO Unit := do
-  loopPure (← IO.getStdin) (← IO.getStdout) (fun _ => "bad-op")
+  loopPure (← IO.getStdin) (← IO.getStdout) handle
